@@ -175,6 +175,8 @@ _SPICE = (b'cfg=defaults{speed=2,name="n"}', b'log"hello"', b'obj:draw{1,2}', b'
           # text that means something to template / formatting languages means nothing here
           b'local levels={map}', b'-- {gfx} {label} {lua} {version} {sfx} {music} {gff} {code}', b'fmt="%s %d {0} {} $x ${y} %(z)s \\\\1 \\\\g<0>"',
           b'tpl=[[<%= x %> {{y}} #{z}]]',
+          # (a goto label is a name: glyphs included)
+          b'::lbl\x8e\x97:: i+=1 if (i<3) goto lbl\x8e\x97', b'::\x80:: ::top\xff_1::',
           b'repeat i+=1 until i>3', b'for k,v in pairs(t) do print(k) end', b'--[[ block\tcomment ]] x=1')
 
 
